@@ -6,6 +6,14 @@ ids = [json.loads(l)['id'] for l in open(f'{V}/properties.jsonl')]
 hook_commits = ["d6c2605", "7556b51"]
 
 CLAIMED = {
+ "C06": dict(engine="E3 histories", technique="model-based testing: proptest-generated export histories interpreted against a reference model (set of exported definitions per canonical directory + reference file combiner), invariant checked after every step, failing histories shrunk step-wise",
+   text="Generated universes of types that share files and depend on each other are compiled once; per universe 60 (quick) / 400 (thorough) generated histories over export / export_all / export_all_to with 4 TS_RS_EXPORT_DIR settings, 8 spellings of two directories and 4 initial directory states run through the real functions (registry reset hook between histories); after every call the directory tree must equal the tree the model predicts.",
+   note="The model trusts export_to_string() of a single type as the standalone text of its declaration and the reference combiner (oracles::combine); placements do not leave the base directory. The reset hook only clears the registry.",
+   ref="DESIGN.md §4 C06"),
+ "C17": dict(engine="E3 histories", technique="fault injection into generated export histories (model-based): obstacle before a generated step, retry after removal, reference model as oracle",
+   text="C06's histories with one file-system obstacle (target path is a directory / parent component is a regular file) injected before a generated step that really has to write the blocked file; the call must return Err (no panic, no Ok), must leave other files byte-identical and its own targets unchanged or a well-formed combination, and after removing the obstacle and retrying the tree must equal the fault-free model for the rest of the history. Non-exportable roots and a path above the file system root must be reported as errors through all three entry points.",
+   note="Faults are file-system obstacles, not I/O errors in mid-write (std::fs is not replaceable additively).",
+   ref="DESIGN.md §4 C17"),
  "C03": dict(engine="E2 corpus", technique="proptest-driven generation of dependency graphs x placements x directory spellings; oracle = swc free-name analysis of every written file + reference path resolver",
    text="Generated modules (references, generics, defaults, inline, flatten, self reference, shared files, nested and `../` placements) are compiled, every registered type is exported as root into a fresh directory under one of 6 spellings, and each written file is parsed: names used minus names declared must equal the imported names (once each), every specifier must resolve to a file of the same export that declares the name, no self import; dependencies() must cover the free names of decl().",
    note="Used names come from tsmodel::free_type_names over swc's AST, not from ts-rs. import-esm is built in the thorough tier only.",
@@ -43,7 +51,7 @@ CLAIMED = {
    note="Trusts oracles::paths (60 lines, unit-tested) as the reading of TypeScript's relative-specifier resolution; POSIX only. The hook re-exports the private functions unchanged.",
    ref="DESIGN.md §4 C08"),
  "C05": dict(engine="E4 purefn (text level) + E3 histories", technique="proptest-generated sets of declarations folded through merge() in all permutations/prefixes against a reference file combiner (model-based oracle)",
-   text="Generated sets of standalone texts are merged in every permutation (<=4 elements, 30/120 for 5) and every prefix through the real merge(); the result must be byte-identical to an independently written combiner that takes texts apart with swc spans. Failures shrink to a minimal set of texts.",
+   text="Text level: generated sets of standalone texts are merged in every permutation (<=4 elements, 30/120 for 5) and every prefix through the real merge(); the result must be byte-identical to an independently written combiner that takes texts apart with swc spans. File level: generated universes of compiled types sharing files are exported one type at a time in generated permutations (tree == combiner after every step, re-export idempotent) and from 2-8 threads under generated delay tapes at the yield points inside export_and_merge (final tree == combiner).",
    note="Reference combiner orders declarations by the declaration head token (identifier incl. generic parameter list), the reading under which the current tree is right for `Foo<T>` vs `Foo2`. Three genuine defects of the text-splitting merge are listed in known_findings.json and excluded by construction from the search.",
    ref="DESIGN.md §4 C05"),
 }
